@@ -32,6 +32,11 @@ def W.stopOf : W → Int → Int
   | .all, _ => 9223372036854775807
   | .every e o, t => o + ((t - o) / e + 1) * e
 
+/-- the window a ReadWindowAggregate request (WindowEvery = every, Offset = offset) asks for:
+    `every = MaxInt64` means "the whole range"; only `every > 0` is a valid request. -/
+def reqW (every offset : Int) : W :=
+  if every = 9223372036854775807 then .all else .every every offset
+
 variable {α : Type}
 
 /-- aggregate of one non-empty group whose window stops at `stop`. -/
@@ -47,6 +52,7 @@ def aggregate (o : Ops α) (agg : Agg) (stop : Int) : List (Pt α) → Option (P
     | .first => p
     | .last => (p :: ps).getLast (List.cons_ne_nil _ _)
 
+set_option wf.preprocess false in
 /-- group by window (groups in order of first appearance), aggregate each group. -/
 def aggSpec (o : Ops α) (agg : Agg) (stopOf : Int → Int) : List (Pt α) → List (Pt α)
   | [] => []
@@ -56,9 +62,8 @@ def aggSpec (o : Ops α) (agg : Agg) (stopOf : Int → Int) : List (Pt α) → L
       aggSpec o agg stopOf (ps.filter (fun q => !(stopOf q.1 == s)))
 termination_by l => l.length
 decreasing_by
-  simp only [List.length_cons, List.length_unattach]
-  refine Nat.lt_succ_of_le (Nat.le_trans (List.length_filter_le _ _) ?_)
-  simp
+  simp only [List.length_cons]
+  exact Nat.lt_succ_of_le (List.length_filter_le _ _)
 
 /-- one evaluation: the request, the raw points (in storage order), and what the
     implementation returned (`none` = panic / error / no cursor). -/
